@@ -34,7 +34,7 @@ CLAIMS = {
                 'exactly one send per path except broadcast / ignored absent unit, at most one transport write per send and only '
                 'under should_respond with the bytes of framer.buildPacket, ids copied before send, response classes carry the '
                 'request function/sub-function code, transport writes reachable only through send<-execute<-framer callback, '
-                'per-connection framer creation, processIncomingPacket call signatures, no deferred scheduling on the response path.',
+                'per-connection framer creation, processIncomingPacket call signatures, no deferred scheduling on the response path, and (datagram front-ends) the destination of every reply traced back to the source address of the datagram that carried this request.',
         'note': 'request.execute may raise any Exception, context lookup NoSuchSlaveException; other statements non-raising. '
                 'Byte-exact output streams over request histories are not decided.',
         'technique': 'per-path effect counting over interprocedural path enumeration + who-may-call + signature conformance (static)',
@@ -51,7 +51,7 @@ CLAIMS = {
         'text': 'Exception-flow containment: in each sync and asyncio receive loop no exception raised by the framer call or the '
                 'transport read can leave the loop, and the handler resets the framer or ends the connection; datastore mutators are '
                 'reachable only through Request.execute <- front-end execute; framers/decoders never touch datastores; framers hold no '
-                'class-level mutable state and every connection owns its framer. Thorough tier cross-checks the Twisted reactor '
+                'class-level mutable state and every connection owns its framer; a framer path that delivers a message without a successful checkFrame is accepted only when restricted to function codes >= 0x80 (they decode to a request that touches no datastore). Thorough tier cross-checks the Twisted reactor '
                 'containment assumption against the installed Twisted sources.',
         'note': 'Statements other than the framer call / transport read are treated as non-raising; Twisted containment is an assumption in the quick tier.',
         'technique': 'exception-flow analysis over enumerated paths + call-graph who-may-call (static)',
@@ -99,7 +99,7 @@ CLAIMS = {
     'C13': {
         'text': 'Loop-variant analysis of the retry loop (initial value retries + 1, > 0 test, exactly one decrement per back-edge, one '
                 '_transact per iteration, no other repeated sender), the retry decision table enumerated over the loop-body paths '
-                'against the documented options, exception-flow from _recv/_send through _transact, the five framers and execute '
+                'against the documented options (a reply counts as the caller\'s own only under equality of unit ids), exception-flow from _recv/_send through _transact, the five framers and execute '
                 '(what can escape a client call), and the clean-exit state / close-on-fault discipline.',
         'note': 'Wall-clock bounds of blocking transport calls and the correctness of a following transaction are not decided. '
                 'Six genuine defects are listed as known findings.',
@@ -115,7 +115,7 @@ CLAIMS = {
     },
     'C16': {
         'text': 'Decides on every path of the Twisted client protocol: id provenance (getNextTID -> request -> registration key) and '
-                'ordering before buildPacket, 16-bit id arithmetic, routing by reply.transaction_id with removal before callback, '
+                'ordering before buildPacket, 16-bit id arithmetic, routing by reply.transaction_id with removal before callback, the registry returning only the entry stored under the requested id, '
                 'dropping of unsolicited replies, connectionLost clearing the flag and errback-ing a snapshot of all pending entries, '
                 'failed deferred when not connected, FIFO append/pop(0).',
         'note': 'Deferred semantics are Twisted\'s; more than 65535 outstanding requests are out of scope. These rules are regression guards (all hold today).',
@@ -135,7 +135,7 @@ CLAIMS = {
                 'exhaustiveness / injectivity / subclassing; the writer summary of every encode() (field order, widths, endianness, '
                 'byte-count expressions, bit lists through pack_bitstring, repeats) is compared with a spec-derived layout table; the '
                 'reader summary of every decode() (offset, width, target attribute, loop start/stride/iteration count) is compared '
-                'with the same table; dispatch dataflow of both _helper functions. Five genuine defects are known findings.',
+                'with the same table; dispatch dataflow of both _helper functions, including that a sub-function / MEI-type class looked up in a table is tested against None and not for truthiness (sub-function 0 is valid). Five genuine defects are known findings.',
         'note': 'pack_bitstring/unpack_bitstring arithmetic and struct are trusted; value ranges are not decided. The MEI object list is decided by C20.',
         'technique': 'abstract interpretation to wire-layout summaries compared with frozen spec tables; constant folding of decoder tables (static)',
     },
@@ -169,7 +169,7 @@ CLAIMS = {
                 'object total admitted by the budget test) is <= 253 and uses the whole PDU; that on every emitting path the budget is '
                 'charged, and the length byte carries, the length of the very payload that is emitted; the progress condition (largest '
                 'object that fits an empty page vs. 245); the continuation dataflow (next_object_id / more_follows / object count / header '
-                'packed after the objects / decode object loop); and the const-evaluated category id sets of the identity factory.',
+                'packed after the objects / decode object loop); and the category id sets of the identity factory, constant-folded for every start id and both outcomes of the start-object-populated test.',
         'note': 'Completeness and exactly-once over whole continuation chains for all identities are not decided. One known finding (245-byte object never fits).',
         'technique': 'constant/affine evaluation of the budget arithmetic + path-wise accounted-vs-emitted comparison + constant folding of id sets (static)',
     },
